@@ -300,6 +300,108 @@ def run_probe(check, tier, seed, extra=(), shards=1, cpu_s=3600, corpus=False, c
     return merge_reports(reps)
 
 
+MIRI_TARGET = os.path.join(TARGET, "miri")
+CORPUS_SMALL = os.path.join(TARGET, "corpus_small")
+
+
+def build_corpus_small(limit=400):
+    """the corpus texts that are short enough to be interpreted by Miri in a reasonable time"""
+    build_corpus()
+    lk = _lock("corpus_small")
+    try:
+        stamp = os.path.join(CORPUS_SMALL, ".stamp")
+        want = open(os.path.join(CORPUS, ".stamp")).read() + f":{limit}"
+        if os.path.exists(stamp) and open(stamp).read() == want:
+            return CORPUS_SMALL
+        shutil.rmtree(CORPUS_SMALL, ignore_errors=True)
+        os.makedirs(CORPUS_SMALL)
+        for f in sorted(os.listdir(CORPUS)):
+            if f.endswith(".capy"):
+                t = open(os.path.join(CORPUS, f), encoding="utf-8").read()
+                if len(t.encode()) <= limit:
+                    shutil.copyfile(os.path.join(CORPUS, f), os.path.join(CORPUS_SMALL, f))
+        open(stamp, "w").write(want)
+    finally:
+        lk.close()
+    return CORPUS_SMALL
+
+
+def miri_cmd(args):
+    """the probe's front-end part (lexer, parser, ast, line_index, topo: no cranelift) interpreted by Miri, hooks on"""
+    src = os.path.join(VERIF, "harness", "probe")
+    env = dict(ENV_BASE)
+    env["CARGO_TARGET_DIR"] = MIRI_TARGET
+    env["RUSTFLAGS"] = "--cfg capy_verif"
+    env["MIRIFLAGS"] = "-Zmiri-disable-isolation"
+    cmd = ["cargo", "+nightly", "miri", "run", "--no-default-features", "--offline", "-q", "--"] + list(args)
+    return cmd, src, env
+
+
+def build_probe_miri():
+    """compiles the probe for Miri (first time ~1 min) by interpreting a trivial run"""
+    lk = _lock("miri")
+    try:
+        src = os.path.join(VERIF, "harness", "probe")
+        shutil.copyfile(os.path.join(REPO, "Cargo.lock"), os.path.join(src, "Cargo.lock"))
+        cmd, cwd, env = miri_cmd(["c25", "--maxlen", "1", "--random", "1", "--files", "0"])
+        t0 = time.time()
+        p = subprocess.run(cmd, cwd=cwd, env=env, stdout=subprocess.PIPE, stderr=subprocess.STDOUT, text=True)
+        if p.returncode != 0 or "@@REPORT" not in p.stdout:
+            raise Inconclusive("Miri build/run of the probe failed:\n" + "\n".join(p.stdout.splitlines()[-30:]))
+        log(f"[build] probe under Miri: ok in {time.time() - t0:.1f}s")
+    finally:
+        lk.close()
+
+
+UB_PAT = re.compile(r"error: Undefined Behavior: ([^\n]*)")
+MIRI_LOC = re.compile(r"-->\s+(\S+?):(\d+):(\d+)")
+
+
+def run_probe_miri(check, seed, extra=(), shards=16, corpus=False, wall_s=1500, shard_by_seed=False):
+    """runs `probe <check>` under Miri in `shards` parallel interpreter processes.
+    returns (merged report, list of violation dicts for Undefined Behaviour / data races Miri reported).
+    A shard that dies without UB (unsupported operation, timeout) raises Inconclusive."""
+    build_probe_miri()
+    common = [check, "--tier", "quick", "--lite", "1"] + list(extra)
+    if corpus:
+        common += ["--corpus", build_corpus_small()]
+
+    def one(i):
+        if shard_by_seed:
+            a = list(common) + ["--seed", str(int(seed) * 1000 + i)]
+        else:
+            a = list(common) + ["--seed", str(seed), "--shard", str(i), "--shards", str(shards)]
+        cmd, cwd, env = miri_cmd(a)
+        r = run_proc(cmd, cwd=cwd, cpu_s=wall_s, wall_s=wall_s, mem_gb=0, env=env)
+        rep = None
+        for line in r.out.splitlines():
+            if line.startswith("@@REPORT "):
+                rep = json.loads(line[len("@@REPORT "):])
+        return i, r, rep
+
+    results = pmap(one, list(range(shards)), workers=min(shards, NCPU))
+    reps, ub = [], []
+    for i, r, rep in results:
+        m = UB_PAT.search(r.err) or UB_PAT.search(r.out)
+        if m:
+            text = r.err if UB_PAT.search(r.err) else r.out
+            loc = ""
+            for lm in MIRI_LOC.finditer(text):
+                if "/repo/crates/" in lm.group(1):
+                    loc = lm.group(1)[lm.group(1).index("crates/"):] + ":" + lm.group(2)
+                    break
+            msg = re.sub(r"0x[0-9a-f]+|alloc\d+|\d+", "N", m.group(1))[:160]
+            ub.append({"key": "miri_ub", "sig": f"miri_ub|{loc}|{msg}",
+                       "what": f"Miri reports undefined behaviour in {loc or 'the front end'}: {m.group(1)[:300]}",
+                       "witness": {"probe_args": common + ['--shard', str(i), '--shards', str(shards)], "miri_output": text[-3000:]}})
+            continue
+        if rep is None:
+            raise Inconclusive(f"probe {check} under Miri, shard {i}: no report (rc={r.rc} sig={r.sig} timed_out={r.timed_out})\n{r.err[-1500:]}")
+        reps.append(rep)
+    merged = merge_reports(reps) if reps else {"evaluations": 0, "distinct_nontrivial": 0, "violations": [], "samples": [], "counters": {}, "notes": []}
+    return merged, ub
+
+
 def merge_reports(reps):
     if len(reps) == 1:
         return reps[0]
